@@ -330,6 +330,10 @@ func (r *Report) Merge(sub *Report, keep func(sig string) bool) {
 			}
 		} else {
 			other += sub.vioCount[sig]
+			olist, _ := r.Extra["other_property_signatures"].([]string)
+			if len(olist) < 20 {
+				r.Extra["other_property_signatures"] = append(olist, sig)
+			}
 		}
 	}
 	if other > 0 {
